@@ -546,6 +546,15 @@ class patched:
         self.saved_time = getattr(M, "time", None)
         if self.saved_time is not None:
             M.time = VirtualTime(self.world)
+        # a worker that reads a clock (none does on the unchanged tree) reads a simulated one: 1 virtual ms per look
+        import nucs.solvers.backtrack_solver as _BS
+
+        self.saved_worker_time = getattr(_BS, "time", None)
+        if self.saved_worker_time is not None and hasattr(self.saved_worker_time, "monotonic"):
+            _BS.time = WorkerTime()
+        else:
+            self.saved_worker_time = None
+        self._BS = _BS
         # the children of the calling process are part of the simulated deployment too
         import multiprocessing as _mp
         import multiprocessing.process as _mpp
@@ -567,9 +576,29 @@ class patched:
             setattr(self.M, k, v)
         if self.saved_time is not None:
             self.M.time = self.saved_time
+        if self.saved_worker_time is not None:
+            self._BS.time = self.saved_worker_time
         for mod, f in self.saved_ac:
             mod.active_children = f
         return False
+
+
+class WorkerTime:
+    """Clock of the worker side (workers are executed eagerly, outside the parent's virtual time line): every look at
+    the clock costs one virtual millisecond, sleeping adds the requested time."""
+
+    def __init__(self):
+        self.ms = 0
+
+    def time(self):
+        self.ms += 1
+        return self.ms / 1000.0
+
+    monotonic = time
+    perf_counter = time
+
+    def sleep(self, s):
+        self.ms += max(0, int(s * 1000))
 
 
 class VirtualTime:
